@@ -15,7 +15,8 @@ Grammar
         | 'for' '(' ty id '=' e ';' id ('<'|'<=') e ';' '++' id ')' stmt | 'while' '(' e ')' stmt
         | 'return' [e | '{' '.' id '=' e, ... '}'] ';' | 'throw' id '(' ... ')' ';' | 'continue' ';' | 'break' ';' (switch arm end only)
         | decl ';' | lvalue ('='|'+='|'-=') e ';' (chained `a = b = e` allowed) | '++' id ';' | id '++' ';' | call ';'
-        | 'assert' '(' ... ')' ';' | 'using' ... ';' (both skipped)
+        | 'assert' '(' ... ')' ';' (skipped: NDEBUG build) | 'using' ... ';' (only if the client language's `using` hook accepts it)
+        a statement after return / throw / continue / break or after an if whose branches all leave is out of grammar (unreachable)
   arms := ('case' label ':' | 'default' ':')+ stmt* ['break' ';']  — an arm either ends with break / throw / return / continue
           or is empty (`[[fallthrough]]`: its labels are added to the next arm); real fall-through is out of grammar;
           a `default:` arm that only throws and is unreachable (all enumerators have a case) is dropped.
